@@ -32,6 +32,35 @@ def _raises(c, f):
             and n.exc is not None and 'GraphParseError' in norm(n.exc)]
 
 
+def _finish_expansion_rules(c):
+    """`foo[-P1]:finish` stands for `(foo[-P1]:succeeded | foo[-P1]:failed)`:
+    in the finish branch of _compute_triggers every node string that names
+    an output is built from the name *and* the offset."""
+    R = 'C14.finish-expansion'
+    f = c.func(GP, 'GraphParser._compute_triggers')
+    outs = ('TASK_OUTPUT_SUCCEEDED', 'TASK_OUTPUT_FAILED')
+    n_seen = 0
+    for n in ast.walk(f.node):
+        if not isinstance(n, (ast.BinOp, ast.JoinedStr)):
+            continue
+        if isinstance(n, ast.BinOp) and not isinstance(n.op, ast.Mod):
+            continue
+        par = c.idx.parent.get(id(n))
+        if isinstance(par, (ast.JoinedStr, ast.FormattedValue)):
+            continue
+        names = [x.id for x in ast.walk(n) if isinstance(x, ast.Name)]
+        k = sum(names.count(o) for o in outs)
+        if not k or not c.holds(n, 'trigger == TASK_OUTPUT_FINISHED'):
+            continue
+        n_seen += 1
+        ok = names.count('name') == k and names.count('offset') == k
+        c.ob(R, c.key(n, f)[:100] + ' name and offset with every output', ok,
+             c.where(n, f), f"{k} output(s), name x{names.count('name')}, "
+             f"offset x{names.count('offset')}" + ('' if ok else ' -- a half '
+             'of the expansion lost its cycle offset (or its name)'))
+    c.floor(R, 'node strings built in the finish branch', n_seen, 2)
+
+
 def _rewrite_regex_rules(c):
     """The node rewrites of _proc_dep_pair (`re.sub(this, that, expr)` over
     the *whole* left-hand expression) must hit exactly the node they were
@@ -106,6 +135,7 @@ def _rewrite_regex_rules(c):
 
 def check(c):
     _rewrite_regex_rules(c)
+    _finish_expansion_rules(c)
     # ---- regex taint
     n_calls = 0
     for mod in (GP, 'graphnode', 'param_expand'):
@@ -313,6 +343,10 @@ def check(c):
 
 
 VARIANTS = [
+    ('finish-failed-half-loses-offset', 'cylc/flow/graph_parser.py',
+     '''                    "%s%s:%s" % (name, offset, TASK_OUTPUT_FAILED)]''',
+     '''                    "%s:%s" % (name, TASK_OUTPUT_FAILED)]''',
+     'C14.finish-expansion'),
     ('plain-node-rewrite-hits-offset-node', 'cylc/flow/graph_parser.py',
      "                        this = r'\\b%s\\b(?![\\[:])' % re.escape(name)",
      "                        this = r'\\b%s\\b(?!:)' % re.escape(name)",
